@@ -3,7 +3,7 @@
 import json, os, shutil, sys
 ID, name = sys.argv[1], sys.argv[2]
 confirm = sys.argv[3] if len(sys.argv) > 3 else ""
-src = "/tmp/seed/%s" % ID
+src = os.path.join(os.environ.get("SEEDROOT", "/tmp/seed"), ID)
 dst = "/verif/seeded/%s" % name
 os.makedirs(dst, exist_ok=True)
 shutil.copy(os.path.join(src, "patch.diff"), dst)
